@@ -117,6 +117,7 @@ static void run_subject(const MatL& A, const MatType& M, const std::string& key0
                     Fnv f; f.str(key); f.str(hn);
                     L.states.insert(f.h);
                     if (cur.ret > 0) L.distinct.insert(f.h);
+                    L.sample("{\"subject\": " + jstr(key) + ", \"history\": " + jstr(hn) + ", \"nconv\": " + num(cur.ret) + "}", 4);
                 }
                 const long nconv = cur.ret;
                 L.count(nconv == ncomp ? "converged_all" : (nconv > 0 ? "converged_partly" : "converged_none"));
